@@ -20,8 +20,9 @@
     acceptance–rejection over an i.i.d. stream (`rejection_conditional_law`, `boundedDomain_law`,
     `discrete_gauss_loop_law`).  C03.lean §9–§11 prove, over the i.i.d. UNIFORM stream (product measure on ℕ → ℝ): the
     Canonne–Kamath–Steinke loop has the discrete Gaussian law (`cks_pass_law`, `cks_renewal`, `cks_unbounded_loop_law`,
-    `cks_loop_law_full` for the model with its fuel), the batch layout of the rejection loop yields an i.i.d. Laplace
-    candidate stream (`batch_layout_iid`, `boundedDomain_stream_law`, `boundedNoise_stream_law`), and Snapping's released
+    `cks_loop_law_full` for the model with its fuel, `cks_growing_fuel_law`), the batch layout of the rejection loop yields an
+    i.i.d. Laplace candidate stream (`batch_layout_iid`, `boundedDomain_stream_law`, `boundedNoise_stream_law`; the samplers
+    are (ε,δ)-DP as sampled: `boundedDomain_sampler_dp`, `boundedNoise_sampler_dp`), and Snapping's released
     value is `snapPost` of a Laplace variable with the grid point's cell probability (`snapping_sign_log_law`,
     `snapping_release_law`, `snapping_grid_pmf`).  What is still only validated is listed in UNPROVED.
 """
@@ -64,7 +65,10 @@ UNPROVED = [
     "cksPassProb (cks_pass_law; composition of the branches inside a pass, recursion of bernoulli_neg_exp for g > 1), "
     "renewal (cks_renewal), the loop with unbounded inner loops returns y with the discrete Gaussian probability "
     "(cks_unbounded_loop_law), the executable model is a restriction of it (cks_model_refines) and has that law up to "
-    "its fuel-exhaustion event: ret <= dG <= ret + abort (theorem cks_loop_law_full, formerly a def Prop). NOT proved: an "
+    "its fuel-exhaustion event: ret <= dG <= ret + abort (theorem cks_loop_law_full, formerly a def Prop); conversely "
+    "every run of the unbounded loop is a run of the model with its inner fuels as parameters (cksLoopG; the model is the "
+    "instance 64/4096/4096, cks_model_is_instance) for all large enough fuels (cks_unbounded_refines_model), so with "
+    "growing fuels the law is exactly discrete Gaussian and P[abort] = 0 (cks_growing_fuel_law). NOT proved: an "
     "explicit bound on P[abort] for the model's FIXED inner fuels 64/4096/4096 (not small for large scales: the cap 4096 "
     "on the geometric count is reached with probability about exp(-4096/(1+floor(scale))); the Python loops are "
     "unbounded and have no such event); validated: sup over atoms of the real sampler's noise against the discrete "
@@ -75,12 +79,15 @@ UNPROVED = [
     "(sample i of a batch of s uses uniforms i, s+i, 2s+i, 3s+i) is an injective reindexing, turns the i.i.d. uniform "
     "stream into an i.i.d. standard-Laplace candidate stream (batch_layout_iid), the model's candidates are a prefix of "
     "it, hence the value returned on the uniform stream has the conditioned Laplace law (boundedDomain_stream_law, "
-    "boundedNoise_stream_law); exact real arithmetic, loop unbounded (any fuel); the KS test against the conditioned "
+    "boundedNoise_stream_law, boundedNoise_release_law) and the samplers themselves satisfy C02's (eps, delta) inequality "
+    "over the uniform stream (boundedDomain_sampler_dp for every scale on the private side of the fixed point, "
+    "boundedNoise_sampler_dp); exact real arithmetic, loop unbounded (any fuel); the KS test against the conditioned "
     "Laplace CDF stays as supporting validation of the running code",
     "Snapping: PROVED (C03.lean section 11) with a fair bit and a CONTINUOUS uniform U on [0,1): (-1)^bit log U is standard "
     "Laplace (snapping_sign_log_law), the model's rounding is round-half-up to the grid with cells [(k-1/2)L, (k+1/2)L) "
     "(snapping_round_half_up), the released value has the law snapPost#Laplace(clamped, 1/eps_eff) (snapping_release_law) "
-    "and the grid point L*k the Laplace probability of its cell (snapping_grid_pmf). NOT proved: that the law of the "
+    "and the grid point L*k the Laplace probability of its cell (snapping_grid_pmf); in exact arithmetic the release is "
+    "pure eps_eff-DP with eps_eff <= eps (snapping_release_dp; not Mironov's floating-point theorem). NOT proved: that the law of the "
     "model's snapUniform (the dyadic double mantissa*2^exponent from getrandbits) is the round-down of a continuous "
     "uniform, and the rounding of crlibm/numpy log; validated: sup over atoms against the rounded, clamped Laplace law",
 ]
